@@ -5,6 +5,7 @@ import (
 	"math/big"
 	"sort"
 	"strings"
+	"sync"
 )
 
 // ---------------------------------------------------------------- sorts
@@ -37,16 +38,20 @@ type DField struct {
 }
 
 var (
-	SBool = &Sort{K: KBool}
-	SInt  = &Sort{K: KInt}
-	SReal = &Sort{K: KReal}
-	SSlice = &Sort{K: KSlice}
-	SIface = &Sort{K: KIface}
-	bvSorts = map[int]*Sort{}
+	SBool    = &Sort{K: KBool}
+	SInt     = &Sort{K: KInt}
+	SReal    = &Sort{K: KReal}
+	SSlice   = &Sort{K: KSlice}
+	SIface   = &Sort{K: KIface}
+	bvSorts  = map[int]*Sort{}
 	arrSorts = map[string]*Sort{}
 )
 
+var sortMu sync.Mutex
+
 func SBV(w int) *Sort {
+	sortMu.Lock()
+	defer sortMu.Unlock()
 	if s, ok := bvSorts[w]; ok {
 		return s
 	}
@@ -57,6 +62,8 @@ func SBV(w int) *Sort {
 
 func SArr(idx, elem *Sort) *Sort {
 	k := idx.String() + "->" + elem.String()
+	sortMu.Lock()
+	defer sortMu.Unlock()
 	if s, ok := arrSorts[k]; ok {
 		return s
 	}
